@@ -579,4 +579,291 @@ theorem read_metadata_bytes (version : Bytes) (t : ModelT) (d : Desc) (h : read 
     · simp only [pure, Except.pure, Except.ok.injEq] at hb2
       rw [← Option.some.inj hb2]
     · simp [throw, throwThe, MonadExceptOf.throw] at hb2
+
+theorem biasSlot_set (op : OpInfo) (ins : List (Option Nat)) (x : Option Nat) (h1 : 1 < ins.length) :
+    biasSlot op (setAt ins 1 x) = (biasSlot op ins).set 1 x := by
+  unfold biasSlot setAt
+  split
+  · split
+    · simp only [List.length_set]
+      split
+      · rw [List.set_append_left _ _ h1]
+      · rfl
+    · rfl
+  · rfl
+
+/-- `biasSlot` appends one `None` or nothing; when the last entry of the result is a tensor nothing was appended and the list is
+longer than the bias position -/
+theorem biasSlot_cases (op : OpInfo) (ins : List (Option Nat)) (b0 : Nat) (hb : op.needsBias = true) (h0 : op.nng.biases[0]? = some b0) :
+    (biasSlot op ins = ins ∧ b0 < ins.length) ∨ (biasSlot op ins = ins ++ [none] ∧ ins.length ≤ b0) := by
+  unfold biasSlot
+  simp only [hb, if_true, h0]
+  split
+  · right; exact ⟨rfl, by assumption⟩
+  · left; exact ⟨rfl, by omega⟩
+
+/-- the writer's view of one operand after the reader's cloning: a clone goes back to its source, everything else stays -/
+theorem restoreSrc_plain (ts : List TensorD) (ifm : Option Nat) (g : Nat) (t : TensorD) (ht : ts[g]? = some t) (hs : t.src = none) :
+    restoreSrc ts ifm (some g) = some g := by
+  unfold restoreSrc
+  simp [ht, hs]
+
+theorem restoreSrc_clone (ts : List TensorD) (ifm : Option Nat) (c : Nat) (t : TensorD) (s : Nat) (ht : ts[c]? = some t) (hs : t.src = some s)
+    (hne : some c ≠ ifm) : restoreSrc ts ifm (some c) = some s := by
+  unfold restoreSrc
+  simp [ht, hs, hne]
+
+theorem cloneReshape_values (ts : List TensorD) (src : Nat) (r : Option (List Nat)) (c : TensorD) (h : cloneReshape ts src r = .ok c) :
+    ∃ t, ts[src]? = some t ∧ c.values.isSome = t.values.isSome := by
+  unfold cloneReshape at h
+  cases ht : ts[src]? with
+  | none => simp [ht, bind, Except.bind, throw, throwThe, MonadExceptOf.throw] at h
+  | some t =>
+    simp only [ht, bind, Except.bind, pure, Except.pure] at h
+    cases r with
+    | none =>
+      simp only [Except.ok.injEq] at h
+      subst h; exact ⟨t, rfl, by cases t.values <;> rfl⟩
+    | some r =>
+      simp only at h
+      split at h
+      · simp at h
+      · split at h
+        · simp at h
+        · split at h
+          · simp [throw, throwThe, MonadExceptOf.throw] at h
+          · simp only [Except.ok.injEq] at h
+            subst h; exact ⟨t, rfl, by cases t.values <;> rfl⟩
+
+theorem map_eq_of_pointwise {α β : Type} (f : α → β) (A : List α) (X : List β) (hl : A.length = X.length)
+    (h : ∀ (q : Nat) a x, A[q]? = some a → X[q]? = some x → f a = x) : A.map f = X := by
+  apply List.ext_getElem?
+  intro q
+  by_cases hq : q < A.length
+  · have ha : A[q]? = some A[q] := List.getElem?_eq_getElem hq
+    have hx : X[q]? = some X[q] := List.getElem?_eq_getElem (by omega)
+    simp [ha, hx, h q _ _ ha hx]
+  · simp [List.getElem?_eq_none (Nat.le_of_not_lt hq), List.getElem?_eq_none (by omega : X.length ≤ q)]
+
+/-- table conditions on a convolution-like operator type (they hold for every type the reader can produce, `conv_types_ok`):
+it has a bias position `b0 ≥ 2`, its IFM position `i0` is neither the weights position 1 nor behind the bias position -/
+structure ConvOk (op : OpInfo) (i0 b0 : Nat) : Prop where
+  conv : op.convLike = true
+  bias : op.needsBias = true
+  b : op.nng.biases[0]? = some b0
+  i : op.nng.ifms[0]? = some i0
+  i1 : i0 ≠ 1
+  ib : i0 < b0
+  b2 : 2 ≤ b0
+
+/-- the writer's `restoredInputs` on (tensors `T`, operand list `A`) gives `X`, when `A` is `X` with clones at some positions:
+`A[1]` is the weights clone `cw`, every other position holds `X`'s entry or a clone of it, and the IFM position is untouched -/
+theorem restored_of_clones (op : OpInfo) (i0 b0 : Nat) (hop : ConvOk op i0 b0) (T : List TensorD) (A X : List (Option Nat)) (n cw : Nat)
+    (hl : A.length = X.length) (h1 : A[1]? = some (some cw)) (hcw : ∃ c, T[cw]? = some c ∧ c.values.isSome = true) (_hcn : n ≤ cw)
+    (hi0 : A[i0]? = X[i0]?)
+    (hsmall : ∀ (q g : Nat), X[q]? = some (some g) → g < n ∧ ∃ t, T[g]? = some t ∧ t.src = none)
+    (hpt : ∀ (q : Nat) a x, A[q]? = some a → X[q]? = some x → a = x ∨
+      (∃ c g t, a = some c ∧ x = some g ∧ n ≤ c ∧ T[c]? = some t ∧ t.src = some g)) :
+    restoredInputs T op A = .ok X := by
+  obtain ⟨c, hc, hcv⟩ := hcw
+  unfold restoredInputs
+  simp only [hop.conv, if_true, h1, hc, hcv, pure, Except.pure, Except.ok.injEq]
+  apply map_eq_of_pointwise _ _ _ hl
+  intro q a x ha hx
+  -- the IFM as the writer sees it is an entry of X: none or a tensor below n
+  have hifm : ∀ k, n ≤ k → some k ≠ getInput A op.nng.ifms 0 := by
+    intro k hk heq
+    unfold getInput at heq
+    simp only [hop.i] at heq
+    rw [hi0] at heq
+    cases hxi : X[i0]? with
+    | none => simp [hxi] at heq
+    | some v =>
+      simp only [hxi] at heq
+      cases v with
+      | none => simp at heq
+      | some g =>
+        have := (hsmall i0 g hxi).1
+        simp at heq; omega
+  rcases hpt q a x ha hx with rfl | ⟨c', g, t, rfl, rfl, hn, ht, hs⟩
+  · cases a with
+    | none => rfl
+    | some g =>
+      obtain ⟨_, t, ht, hs⟩ := hsmall q g hx
+      exact restoreSrc_plain T _ g t ht hs
+  · exact restoreSrc_clone T _ c' t g ht hs (hifm c' hn)
+
+/-- **the writer undoes the reader's clones.** For a convolution-like operator whose file operands `ins` refer to tensors without
+`src_tensor` (the file's own tensors): after `cloneStep` (reshaped clones of constant weights and bias, `None` for a missing
+bias) the writer's `restoredInputs` yields the file operands again, followed by the `None` of the missing bias. -/
+theorem clones_restored (op : OpInfo) (i0 b0 : Nat) (hop : ConvOk op i0 b0) (ts : List TensorD) (ins : List (Option Nat))
+    (r : List TensorD × List (Option Nat))
+    (hins : ∀ (q g : Nat), ins[q]? = some (some g) → ∃ t, ts[g]? = some t ∧ t.src = none)
+    (h : cloneStep op ts ins = .ok r) :
+    ∃ w tw, ins[1]? = some (some w) ∧ ts[w]? = some tw ∧
+      restoredInputs r.1 op r.2 = .ok (if tw.values.isSome then biasSlot op ins else ins) := by
+  unfold cloneStep at h
+  simp only [hop.conv, if_true] at h
+  cases h1 : ins[1]? with
+  | none => simp [h1, throw, throwThe, MonadExceptOf.throw] at h
+  | some v =>
+    cases v with
+    | none => simp [h1, throw, throwThe, MonadExceptOf.throw] at h
+    | some w =>
+      simp only [h1] at h
+      cases htw : ts[w]? with
+      | none => simp [htw, throw, throwThe, MonadExceptOf.throw] at h
+      | some tw =>
+        simp only [htw] at h
+        refine ⟨w, tw, rfl, htw, ?_⟩
+        by_cases hv : tw.values.isSome = true
+        · simp only [hv, if_true] at h ⊢
+          obtain ⟨c, hc, h⟩ := bind_ok h
+          have h1len : 1 < ins.length := (List.getElem?_eq_some_iff.mp h1).1
+          rw [biasSlot_set op ins _ h1len] at h
+          obtain ⟨hcsrc, _⟩ := cloneReshape_src ts w _ c hc
+          obtain ⟨tw', htw', hcv⟩ := cloneReshape_values ts w _ c hc
+          have : tw' = tw := by rw [htw] at htw'; exact (Option.some.inj htw').symm
+          subst this
+          -- facts about X = biasSlot op ins
+          have hXsub : ∀ (q g : Nat), (biasSlot op ins)[q]? = some (some g) → ins[q]? = some (some g) := by
+            intro q g hq
+            rcases biasSlot_cases op ins b0 hop.bias hop.b with ⟨e, _⟩ | ⟨e, _⟩
+            · rw [e] at hq; exact hq
+            · rw [e] at hq
+              by_cases hql : q < ins.length
+              · rwa [List.getElem?_append_left hql] at hq
+              · rw [List.getElem?_append_right (by omega)] at hq
+                by_cases hq0 : q - ins.length = 0
+                · simp [hq0] at hq
+                · have : ([none] : List (Option Nat))[q - ins.length]? = none := by
+                    apply List.getElem?_eq_none; simp; omega
+                  rw [this] at hq; simp at hq
+          have hXlen : ins.length ≤ (biasSlot op ins).length := by
+            rcases biasSlot_cases op ins b0 hop.bias hop.b with ⟨e, _⟩ | ⟨e, _⟩ <;> rw [e] <;> simp
+          have hX1 : (biasSlot op ins)[1]? = some (some w) := by
+            rcases biasSlot_cases op ins b0 hop.bias hop.b with ⟨e, _⟩ | ⟨e, _⟩
+            · rw [e]; exact h1
+            · rw [e, List.getElem?_append_left h1len]; exact h1
+          have hXlen1 : 1 < (biasSlot op ins).length := by omega
+          have hsmall1 : ∀ (T : List TensorD), (∀ (g : Nat) t, ts[g]? = some t → T[g]? = some t) →
+              ∀ (q g : Nat), (biasSlot op ins)[q]? = some (some g) → g < ts.length ∧ ∃ t, T[g]? = some t ∧ t.src = none := by
+            intro T hT q g hq
+            obtain ⟨t, ht, hs⟩ := hins q g (hXsub q g hq)
+            exact ⟨(List.getElem?_eq_some_iff.mp ht).1, t, hT g t ht, hs⟩
+          have hT1 : ∀ (g : Nat) t, ts[g]? = some t → (ts ++ [c])[g]? = some t := by
+            intro g t ht
+            rw [List.getElem?_append_left (List.getElem?_eq_some_iff.mp ht).1]; exact ht
+          have hcT1 : (ts ++ [c])[ts.length]? = some c := by simp
+          have hXA1 : ((biasSlot op ins).set 1 (some ts.length))[1]? = some (some ts.length) := by
+            rw [List.getElem?_set_self hXlen1]
+          -- the result without a bias clone
+          have hplain : restoredInputs (ts ++ [c]) op ((biasSlot op ins).set 1 (some ts.length)) = .ok (biasSlot op ins) := by
+            refine restored_of_clones op i0 b0 hop (ts ++ [c]) _ _ ts.length ts.length (by simp) hXA1 ⟨c, hcT1, by rw [hcv]; exact hv⟩
+              (Nat.le_refl _) ?_ (hsmall1 _ hT1) ?_
+            · rw [List.getElem?_set_ne (Ne.symm hop.i1)]
+            · intro q a x ha hx
+              by_cases hq : q = 1
+              · subst hq
+                rw [hXA1] at ha; rw [hX1] at hx
+                obtain rfl := Option.some.inj ha
+                obtain rfl := Option.some.inj hx
+                exact Or.inr ⟨ts.length, w, c, rfl, rfl, Nat.le_refl _, hcT1, hcsrc⟩
+              · rw [List.getElem?_set_ne (Ne.symm hq)] at ha
+                rw [ha] at hx; exact Or.inl (Option.some.inj hx)
+          unfold biasClone at h
+          split at h
+          · rename_i b hlast
+            split at h
+            · simp [throw, throwThe, MonadExceptOf.throw] at h
+            · rename_i tb htb
+              split at h
+              · rename_i htbv
+                obtain ⟨cb, hcb, h⟩ := bind_ok h
+                simp only [pure, Except.pure, Except.ok.injEq] at h
+                subst h
+                obtain ⟨hcbsrc, _⟩ := cloneReshape_src _ b none cb hcb
+                -- nothing was appended: the last operand is a tensor
+                have hL : (biasSlot op ins) = ins ∧ b0 < ins.length := by
+                  rcases biasSlot_cases op ins b0 hop.bias hop.b with hx | ⟨e, _⟩
+                  · exact hx
+                  · exfalso
+                    rw [e, List.getLast?_eq_getElem?] at hlast
+                    simp only [List.length_set, List.length_append, List.length_cons, List.length_nil] at hlast
+                    rw [List.getElem?_set_ne (by omega)] at hlast
+                    simp at hlast
+                obtain ⟨hXe, hb0⟩ := hL
+                have hlastX : (biasSlot op ins)[(biasSlot op ins).length - 1]? = some (some b) := by
+                  rw [List.getLast?_eq_getElem?] at hlast
+                  simp only [List.length_set] at hlast
+                  rw [List.getElem?_set_ne (by rw [hXe]; have := hop.b2; omega)] at hlast
+                  exact hlast
+                have hLm : (biasSlot op ins).length - 1 ≠ 1 := by rw [hXe]; have := hop.b2; omega
+                have hLi : (biasSlot op ins).length - 1 ≠ i0 := by rw [hXe]; have := hop.ib; omega
+                have hT2 : ∀ (g : Nat) t, ts[g]? = some t → (ts ++ [c] ++ [cb])[g]? = some t := by
+                  intro g t ht
+                  rw [List.getElem?_append_left (by simp; have := (List.getElem?_eq_some_iff.mp ht).1; omega)]
+                  exact hT1 g t ht
+                have hcT2 : (ts ++ [c] ++ [cb])[ts.length]? = some c := by
+                  rw [List.getElem?_append_left (by simp)]; exact hcT1
+                have hcbT2 : (ts ++ [c] ++ [cb])[ts.length + 1]? = some cb := by simp
+                show restoredInputs (ts ++ [c] ++ [cb]) op
+                  (setAt ((biasSlot op ins).set 1 (some ts.length)) (((biasSlot op ins).set 1 (some ts.length)).length - 1) (some (ts ++ [c]).length)) = _
+                unfold setAt
+                simp only [List.length_set, List.length_append, List.length_cons, List.length_nil]
+                refine restored_of_clones op i0 b0 hop _ _ _ ts.length ts.length (by simp) ?_ ⟨c, hcT2, by rw [hcv]; exact hv⟩
+                  (Nat.le_refl _) ?_ (hsmall1 _ hT2) ?_
+                · rw [List.getElem?_set_ne hLm]; exact hXA1
+                · rw [List.getElem?_set_ne hLi, List.getElem?_set_ne (Ne.symm hop.i1)]
+                · intro q a x ha hx
+                  by_cases hq : q = 1
+                  · subst hq
+                    rw [List.getElem?_set_ne hLm, hXA1] at ha; rw [hX1] at hx
+                    obtain rfl := Option.some.inj ha
+                    obtain rfl := Option.some.inj hx
+                    exact Or.inr ⟨ts.length, w, c, rfl, rfl, Nat.le_refl _, hcT2, hcsrc⟩
+                  · by_cases hq2 : q = (biasSlot op ins).length - 1
+                    · subst hq2
+                      rw [List.getElem?_set_self (by simp; omega)] at ha
+                      rw [hlastX] at hx
+                      obtain rfl := Option.some.inj ha
+                      obtain rfl := Option.some.inj hx
+                      exact Or.inr ⟨ts.length + 1, b, cb, rfl, rfl, by omega, hcbT2, hcbsrc⟩
+                    · rw [List.getElem?_set_ne (Ne.symm hq2), List.getElem?_set_ne (Ne.symm hq)] at ha
+                      rw [ha] at hx; exact Or.inl (Option.some.inj hx)
+              · simp only [pure, Except.pure, Except.ok.injEq] at h
+                subst h; exact hplain
+          · simp only [pure, Except.pure, Except.ok.injEq] at h
+            subst h; exact hplain
+        · have hv' : tw.values.isSome = false := by simpa using hv
+          simp only [hv', Bool.false_eq_true, if_false, pure, Except.pure, Except.ok.injEq] at h ⊢
+          subst h
+          unfold restoredInputs
+          simp [hop.conv, h1, htw, hv', pure, Except.pure]
+
+/-- the table conditions of `clones_restored` as a check of one reader-side row -/
+def convRowOk (row : Nat × String × Bool × WriterTbl.Tri) : Bool :=
+  match lookupOp row.2.1 with
+  | none => false
+  | some info =>
+    !info.convLike ||
+      (info.needsBias && match info.nng.ifms[0]?, info.nng.biases[0]? with
+        | some i0, some b0 => i0 != 1 && decide (i0 < b0) && decide (2 ≤ b0)
+        | _, _ => false)
+
+theorem conv_rows_ok : WriterTbl.readerOps.all convRowOk = true := by decide +kernel
+
+theorem convOk_of_row (row : Nat × String × Bool × WriterTbl.Tri) (info : OpInfo) (hr : convRowOk row = true) (hl : lookupOp row.2.1 = some info)
+    (hc : info.convLike = true) : ∃ i0 b0, ConvOk info i0 b0 := by
+  unfold convRowOk at hr
+  simp only [hl, hc, Bool.not_true, Bool.false_or, Bool.and_eq_true] at hr
+  obtain ⟨hb, hm⟩ := hr
+  cases hi : info.nng.ifms[0]? with
+  | none => simp [hi] at hm
+  | some i0 =>
+    cases hbb : info.nng.biases[0]? with
+    | none => simp [hi, hbb] at hm
+    | some b0 =>
+      simp only [hi, hbb, Bool.and_eq_true, bne_iff_ne, ne_eq, decide_eq_true_eq] at hm
+      exact ⟨i0, b0, ⟨hc, hb, hbb, hi, hm.1.1, hm.1.2, hm.2⟩⟩
 end VelaVerif.Tflite.Reader
